@@ -113,6 +113,8 @@ def c02(run):
     run.gen_replay("Gen_Prog", gen_cfg(dict(Scope="scope", MaxItems=2)), ["replay-prog"], "C02:scope")
     # the same field name at three nesting levels, read from inside and after inner blocks have ended
     run.gen_replay("Gen_Prog", gen_cfg(dict(Scope="fields3", MaxItems=1)), ["replay-prog"], "C02:fields3")
+    # blocks nested to every supported depth (and one beyond): the limit is on the blocks open at one time
+    run.gen_replay("Gen_Total", cfg(constants=dict(Scope="blockscale", MaxLen=1), invariants=("Emit",)), ["replay-total"], "C02:depth")
     tv_vm(run, "C02:vm", 500 if run.quick else 5000, seed_off=2)
     run.exhaustive = True
 
@@ -174,6 +176,8 @@ def c17(run):
     run.gen_replay("Gen_Gram", gen_cfg(dict(Scope="bindsel", MaxLen=1)), ["replay-gram"], "C17:bindsel")
     run.gen_replay("Gen_Gram", gen_cfg(dict(Scope="nest", MaxLen=1)), ["replay-gram"], "C17:nest")
     run.gen_replay("Gen_Gram", gen_cfg(dict(Scope="comments", MaxLen=2 if q else 3)), ["replay-gram"], "C17:comments")
+    # n broken statements, one per line (n up to 1000): rejected, and every one of them has a diagnostic of its own
+    run.gen_replay("Gen_Total", cfg(constants=dict(Scope="errscale", MaxLen=1), invariants=("Emit",)), ["replay-total"], "C17:errscale")
     chk_comp(run, "C17:comp", 1200 if q else 12000, ("accept-mismatch",),
              case_sources=[("Gen_Gram", gen_cfg(dict(Scope="assign", MaxLen=1)), {})], max_cases=4000)
     run.exhaustive = False
@@ -391,6 +395,51 @@ def mc_format(run):
     return r
 
 
+def mc_load(run):
+    """MC: the loader machine BclLoad (L2) refines BclFormat (L1) under every delivery of the bytes and at every cut, and every load ends."""
+    c = cfg(constants=dict(ReadSizes="{1, 2, 3, 10}" if run.quick else "{1, 2, 3, 5, 9, 10, 64}"),
+            invariants=("Window", "Verdict", "Reason", "Events", "RunAgrees"), properties=("Terminates",))
+    return run.mc("MC_Load", c, label="MC_Load")
+
+
+def tv_load(run, stage, n, pid, seed_off=0):
+    """TV of the real loader: recorded LoadProg runs (reads of the source, section events of the hook in prog.go, returned label,
+    re-dump) folded through the L2 machine BclLoad (Trace_Load). What contradicts the property: for C09/C14 a whole dump that is
+    rejected, panics, or loads to other parts than the machine's; for C13 a proper prefix that is accepted, or panics. The finer
+    disagreements (laziness of reads, order of section events, error label) are DRIFT."""
+    import os, re
+    batch = os.path.join(run.scratch, stage.replace(":", "_") + ".ndjson")
+    s = run.vh(["drive-load", "--n", str(n), "--seed", str(run.seed * 10 + seed_off), "--out", batch], stage + ":drive")
+    run.traces -= s.get("judged", 0)
+    r = run.tlc("Trace_Load", cfg(invariants=("Tally",)), files={"loadruns.ndjson": "@" + batch}, label=stage + ":tlc", timeout=1800)
+    if not r["ok"]:
+        raise Inconclusive("Trace_Load failed: %s" % r.get("violated"))
+    lines = open(batch).read().splitlines()
+    tally = {}
+    for m in re.finditer(r'<<"VERDICT", (\d+), "([a-z0-9-]+)">>', r["text"]):
+        k, v = int(m.group(1)), m.group(2)
+        rec = json.loads(lines[k - 1])
+        whole = rec["cut"] == rec["full"]
+        if rec["ret"] == "panic" and v != "ood":
+            v = "panic"
+        tally[v] = tally.get(v, 0) + 1
+        if v in ("ok", "ood"):
+            continue
+        mine = (whole and pid in ("C09", "C14")) or (not whole and pid == "C13")
+        if v in ("verdict-mismatch", "parts-mismatch", "l1-mismatch", "panic") and mine:
+            if sum(1 for x in run.violations if x.get("shape") == "load:" + v) < 4:
+                run.violations.append(dict(why="the recorded run of the real loader is not a run of the loader machine on the same bytes: %s (%s)" % (v, "whole dump" if whole else "proper prefix"),
+                                           shape="load:" + v, case=dict(fam="loadrun", src=rec.get("src"), cut=rec["cut"], full=rec["full"]),
+                                           observed=dict(ret=rec["ret"], events=rec["evs"][:40]), confirmed=True, stage=stage))
+        else:
+            run.drift.append(dict(stage=stage, kind="load:" + v, count=1))
+    if not tally:
+        raise Inconclusive("Trace_Load judged nothing")
+    run.traces += tally.get("ok", 0)
+    run.extra.setdefault("load_runs", {})[stage] = tally
+    return tally
+
+
 def prog_sources_small(run):
     return [("Gen_Prog", gen_cfg(dict(Scope="bind", MaxItems=3)), {}),
             ("Gen_Prog", gen_cfg(dict(Scope="blocks", MaxItems=2)), {}),
@@ -404,6 +453,8 @@ def c09(run):
                 "plus every program of the C01/C03/C04 families: real Dump then LoadProg must give the same disassembly, output, blocks, binding, warnings, runtime error "
                 "with position, and a byte-identical second dump. Non-trivial = every case; distinct by case.")
     mc_format(run)
+    mc_load(run)
+    tv_load(run, "C09:loader", 40 if run.quick else 600, "C09")
     run.gen_replay("Gen_Format", gen_cfg(dict(Scope="sizes", MaxConsts=1)), ["replay-format"], "C09:sizes")
     # every partition of a tiny file into reads, every partition with <= 2 cuts of a file holding a constant of every kind
     run.gen_replay("Gen_Format", gen_cfg(dict(Scope="parts", MaxConsts=1)), ["replay-format"], "C09:partitions")
@@ -418,6 +469,8 @@ def c13(run):
                 "of the scaling-law programs and of the specification-assembled files: LoadProg must return an error, never panic, never a program. "
                 "Non-trivial = every case; distinct by case.")
     mc_format(run)
+    mc_load(run)
+    tv_load(run, "C13:loader", 40 if run.quick else 600, "C13", seed_off=3)
     run.gen_replay("Gen_Format", gen_cfg(dict(Scope="header", MaxConsts=1)), ["replay-format"], "C13:header")
     run.gen_replay("Gen_Format", gen_cfg(dict(Scope="mc", MaxConsts=1)), ["replay-format", "--cuts", "1"], "C13:spec-bytes")
     for mod, c, kw in prog_sources_small(run)[: (2 if run.quick else 3)]:
@@ -594,6 +647,8 @@ def c20(run):
     run.gen_replay("Gen_Layout", cfg(constants=dict(Scope="comment", MaxItems=1), invariants=("Emit",)), ["replay-layout"], "C20:comment")
     run.gen_replay("Gen_Layout", cfg(constants=dict(Scope="badchar", MaxItems=1), invariants=("Emit",)), ["replay-layout"], "C20:badchar")
     run.gen_replay("Gen_Layout", cfg(constants=dict(Scope="glue", MaxItems=1), invariants=("Emit",)), ["replay-layout"], "C20:glue")
+    # n pairs of redundant parentheses around one literal, n up to 1000: the meaning in closed form
+    run.gen_replay("Gen_Total", cfg(constants=dict(Scope="parenscale", MaxLen=1), invariants=("Emit",)), ["replay-total"], "C20:parens")
     # two and three items per block: 40 styles x 134^2 (134^3) programs are sampled, seeded (the exhaustive product does not finish)
     run.gen_replay("Gen_Layout", cfg(constants=dict(Scope="render", MaxItems=3), invariants=("Emit", "SameTokens")), ["replay-layout"], "C20:sim",
                    simulate=10 ** 9, depth=6, workers=1, max_cases=4000 if q else 60000, timeout=2400)
@@ -630,7 +685,7 @@ def c08(run):
         raise Inconclusive("no diagnostics collected")
     r = run.tlc("Trace_Pos", cfg(invariants=("Located",)), files={"diags.ndjson": "@" + dg}, label="C08:diag:tlc")
     if r["violated"]:
-        m = re.search(r"k = (\d+)", r["text"])
+        m = re.search(r"is violated by the initial state:\s*\n\s*k = (\d+)", r["text"]) or re.search(r"^k = (\d+)", r["text"], re.M)
         kk = int(m.group(1)) if m else 0
         lines = open(dg).read().splitlines()
         j = json.loads(lines[kk - 1]) if 0 < kk <= len(lines) else {}
